@@ -1,7 +1,7 @@
 /- Line-protocol driver for the C11 model (ForML.Model.Graph).
 
   in : (seq op …)   op ::= (mkworker <bool> szin szout) | (mkfuture szin szout) | (fork n)
-                          | (sub s j p i) | (pub p i s k) | (train n tp ti lp li) | (segment h t|none) | (validate h t|none)
+                          | (sub s j p i) | (pub p i s k) | (pubp p i s portcode) | (train n tp ti lp li) | (segment h t|none) | (validate h t|none)
                           | (extend h t|none seg|none x|none) | (copy h t|none) | (trunk seg|none seg|none seg|none)
                           | (textend (seg seg seg) seg|none seg|none seg|none) | (compose (seg seg seg) …)
                           seg ::= (h t|none)
@@ -69,12 +69,20 @@ def trunk? : Sexp → Option TrunkSpec
   | .list [a, t, l] => do pure ⟨← seg? a, ← seg? t, ← seg? l⟩
   | _ => none
 
+/-- the port of a port code: Train 0, Label 1, Apply(i) i+2 -/
+def codePort? (x : Sexp) : Option Port := do
+  match ← x.nat? with
+  | 0 => pure .train
+  | 1 => pure .label
+  | c + 2 => pure (.apply c)
+
 def op? : Sexp → Option Op
   | .list [.atom "mkworker", st, i, o] => do pure (.mkWorker (← bool? st) (← i.nat?) (← o.nat?))
   | .list [.atom "mkfuture", i, o] => do pure (.mkFuture (← i.nat?) (← o.nat?))
   | .list [.atom "fork", n] => do pure (.fork (← n.nat?))
   | .list [.atom "sub", s, j, p, i] => do pure (.subscribe (← s.nat?) (← j.nat?) (← p.nat?) (← i.nat?))
-  | .list [.atom "pub", p, i, s, k] => do pure (.publish (← p.nat?) (← i.nat?) (← s.nat?) (← k.nat?))
+  | .list [.atom "pub", p, i, s, k] => do pure (.publish (← p.nat?) (← i.nat?) (← s.nat?) (.apply (← k.nat?)))
+  | .list [.atom "pubp", p, i, s, c] => do pure (.publish (← p.nat?) (← i.nat?) (← s.nat?) (← codePort? c))
   | .list [.atom "train", n, tp, ti, lp, li] => do
     pure (.train (← n.nat?) (← tp.nat?) (← ti.nat?) (← lp.nat?) (← li.nat?))
   | .list [.atom "segment", h, t] => do pure (.segment (← h.nat?) (← optNat? t))
